@@ -95,6 +95,17 @@ func runServe(fields []string) string {
 		fox.WithNoMethod(cfg[0] == '1'),
 		fox.WithAutoOptions(cfg[1] == '1'),
 	}
+	if len(cfg) > 3 && cfg[3] == '1' {
+		// the documented way to wrap the ResponseWriter: every handler (route and special ones) runs on a CloneWith copy
+		// taken from the pool; the copy must show exactly what the original shows
+		opts = append([]fox.GlobalOption{fox.WithMiddleware(func(next fox.HandlerFunc) fox.HandlerFunc {
+			return func(c fox.Context) {
+				cc := c.CloneWith(c.Writer(), c.Request())
+				defer cc.Close()
+				next(cc)
+			}
+		})}, opts...)
+	}
 	switch cfg[2] {
 	case '1':
 		opts = append(opts, fox.WithIgnoreTrailingSlash(true))
@@ -281,7 +292,7 @@ func escapeWire(s string) string {
 func genServe(r *Rng, tier string, n int, emit func(string)) {
 	for c := 0; c < n; c++ {
 		cr := r.Fork()
-		cfg := strconv.Itoa(cr.Intn(2)) + strconv.Itoa(cr.Intn(2)) + strconv.Itoa(Pick(cr, []int{0, 0, 1, 2}))
+		cfg := strconv.Itoa(cr.Intn(2)) + strconv.Itoa(cr.Intn(2)) + strconv.Itoa(Pick(cr, []int{0, 0, 1, 2})) + strconv.Itoa(Pick(cr, []int{0, 0, 1}))
 		nMeth := 1 + cr.Intn(4)
 		methods := make([]string, nMeth)
 		for i := range methods {
@@ -308,6 +319,16 @@ func genServe(r *Rng, tier string, n int, emit func(string)) {
 			reps := 1 + cr.Intn(min(3, nMeth))
 			for j := 0; j < reps; j++ {
 				routes = append(routes, fmt.Sprintf("%s,%s,%d,%d", Pick(cr, methods), hx(p), Pick(cr, []int{0, 0, 0, 1, 1, 2, 2, 3, 4}), len(routes)+1))
+			}
+		}
+		if cr.Chance(18) {
+			// hostname backtracking family: a static label next to a {param} label below a consumed hostname parameter,
+			// registered for one method only, so that the other methods walk it lazily (405 / OPTIONS Allow loops)
+			fm := Pick(cr, methods)
+			tail := Pick(cr, []string{"/p/{x}", "/p", "/p/", "/{x}/q"})
+			for _, hp := range []string{"{s}.b.c", "{s}.{t}.c", Pick(cr, []string{"{s}.bc.c", "a.{t}.c", "{s}.b.{u}"})} {
+				pats = append(pats, hp+tail)
+				routes = append(routes, fmt.Sprintf("%s,%s,%d,%d", fm, hx(hp+tail), Pick(cr, []int{0, 1, 2}), len(routes)+1))
 			}
 		}
 		var reqs []string
